@@ -31,6 +31,12 @@ var tpls = []ruleTpl{
 	{`foo`, "out", []string{"foo", "a.foo.b", "fo", "bar"}},
 	{`^(.*)\.count$`, "$1.total", []string{"x.count", "y.count", "x.count.z", ".count"}},
 	{`^a(b?)c`, "o$1", []string{"ac", "abc", "abbc", "acd"}},
+	// what the expansion does besides $1..$n: the whole match, a literal dollar, a group the pattern does not have, a named group
+	{`foo`, "agg.$0", []string{"foo", "a.foo.b", "xfoox", "bar"}},
+	{`^srv\.[a-z]+\.cpu$`, "all.${0}.x", []string{"srv.a.cpu", "srv.b.cpu", "srv.ab.mem"}},
+	{`(\d+)$`, "n.$$${1}", []string{"foo1", "foo12", "bar12", "foo"}},
+	{`foo`, "agg.$1.end", []string{"foo", "a.foo.b", "bar"}},
+	{`^(?P<host>[a-z]+)\.load$`, "load.$host.${host}x", []string{"a.load", "web.load", "web.loadx"}},
 }
 
 var valPool = []float64{0, 1, -1, 0.5, 2.25, -3.125, 7, 10, 1024.5, 0.125, 100, -0.5, 3, 3, 42}
